@@ -73,6 +73,26 @@ def system(name, shape, dtype):
         J = lambda x: diagJ(1 / (1 + x * x))
         z = np.zeros(shape, dtype=dtype) if shape else dtype(0)
         g = dict(near=z + dtype(3.0), far=z + dtype(300.0), singular=z - dtype(1e6))
+    elif name.startswith("stiff"):
+        # well-conditioned but stiffly SCALED: F = S (A x + 0.1 sin x - b).  For large S the Newton step converges long before the residual is at the level of
+        # the tolerance: a solver that takes a converged step for a solution claims a false success here
+        S = dtype(float(name[5:]))
+        ii = np.arange(n, dtype=np.float64)
+        A = (2.0 * np.eye(n) + 0.3 * np.cos(np.add.outer(ii, 2.0 * ii)))
+        xs = 0.5 * np.sin(1.0 + ii)
+        bvec = A @ xs + 0.1 * np.sin(xs)
+        Ad = A.astype(dtype); bd = bvec.astype(dtype)
+
+        def F(x):
+            v = np.asarray(x, dtype=dtype).reshape(n)
+            return (S * (Ad @ v + dtype(0.1) * np.sin(v) - bd)).reshape(np.shape(x))
+
+        def J(x):
+            v = np.asarray(x, dtype=dtype).reshape(n)
+            M = S * (Ad + np.diag(dtype(0.1) * np.cos(v)))
+            return M.reshape(tuple(shape) + tuple(shape)) if shape else np.asarray(M[0, 0])
+        base = xs.astype(dtype).reshape(shape) if shape else dtype(xs[0])
+        g = dict(near=base + dtype(0.3), far=base + dtype(3.0), singular=base * dtype(0) , huge=None)
     else:
         raise KeyError(name)
     # a guess whose norm is orders of magnitude larger than the root's (scale-dependent tolerances must follow the iterate)
@@ -94,6 +114,8 @@ def relayout(F, J, shape, layout):
     return F2, J2
 
 
+MULTIPLE = 30.0      # 'a modest multiple ... (scaled by problem size)': the solvers' own gates are 10 tol (n + ||x||); linear in n, so a gate in n^2 shows at n = 12
+STIFF = ["stiff%g" % v for v in (1e3, 3e4, 1e5, 1.5e5, 2.2e5, 3.3e5, 5e5, 1e6, 1e7)]
 SYSTEMS = ["sepquad", "coupled", "trig", "expremote", "cubic", "rootless", "atan"]
 SHAPES = [[], [1], [2], [3], [6], [12], [2, 3]]
 
@@ -136,10 +158,14 @@ def solve_case(case):
         xl = np.asarray(x, dtype=np.longdouble)
         Fl, _, _ = system(case["system"], shape, np.longdouble)
         res = float(np.linalg.norm(np.asarray(Fl(xl), dtype=np.longdouble).reshape(-1)))
-        bound = 100 * tol_eff * (n + float(np.linalg.norm(np.asarray(x, dtype=np.float64).reshape(-1))))
+        bound = MULTIPLE * tol_eff * (n + float(np.linalg.norm(np.asarray(x, dtype=np.float64).reshape(-1))))
+        if case["system"].startswith("stiff"):
+            # the solver sees F through the working precision: its own evaluation of S (A x + 0.1 sin x - b) carries rounding of size eps S (|A||x| + |b| + 0.1),
+            # below which no residual can be certified (tol = 1e-12 with S = 1e7 asks for less than that in float64)
+            bound += 4 * n * float(np.finfo(dtype).eps) * float(case["system"][5:]) * 3.0
         if not np.all(np.isfinite(np.asarray(x, dtype=np.float64))) or not res <= bound:
             r.v(key + "/false-success", "success => the residual norm is below a modest multiple of the tolerance", case,
-                observed=dict(residual=res, bound=bound, x=np.asarray(x, dtype=float).reshape(-1)[:4]), expected="||F(x)|| <= 100 tol (n + ||x||)")
+                observed=dict(residual=res, bound=bound, x=np.asarray(x, dtype=float).reshape(-1)[:4]), expected="||F(x)|| <= %g tol (n + ||x||)" % MULTIPLE)
     r.out((solver, case["system"], case["dtype"], case["jac"], case["guess"], success))
     if hash(str(case)) % 211 == 0:
         r.samples.append(dict(case=case, success=success))
@@ -174,6 +200,17 @@ def run(ctx):
                                     if lay == "flat" and len(shp) == 1:
                                         continue
                                     cases.append(dict(system=sysn, shape=shp, solver=solver, dtype=dn, jac=jac, guess=guess, tol=tol, layout=lay))
+    # stiffly scaled systems: a converged step is not a small residual (all sizes; finite-difference and full user Jacobian; the solvers called directly and
+    # the front-end on both dispatch paths)
+    for sysn in STIFF:
+        for shp in ([2], [3], [6], [12], [3, 4], [2, 3]):
+            for solver, dn in (("newtontrustregion", "float64"), ("hybrj", "float64"), ("nonlinear_roots", "float64"), ("nonlinear_roots", "longdouble"), ("newtontrustregion", "longdouble")):
+                for jac in ("analytic", "fd"):
+                    if solver == "hybrj" and jac == "fd":
+                        continue
+                    for guess in ("near", "far"):
+                        for tol in ((1e-9,) if ctx.quick else (1e-9, 1e-6, 1e-12)):
+                            cases.append(dict(system=sysn, shape=shp, solver=solver, dtype=dn, jac=jac, guess=guess, tol=tol))
     grid.pmap(solve_case, cases, ctx, horizon=300)
     ctx.note("cases", total=len(cases))
 
